@@ -34,7 +34,10 @@ FinalEv(e) ==
     /\ Clause("rows-hold-final-data", \A i \in DOMAIN e.recorded : e.recorded[i][1] \in DOMAIN rows => rows[e.recorded[i][1]] = e.recorded[i][2])
     /\ UNCHANGED svars
 \* ---- C11 ----
-SyncRetEv(e) == returned' = Put(returned, e.k, <<e.v, e.cf>>) /\ UNCHANGED <<rows, live, crashed>>
+\* within one run an id names ONE design object: a second object whose synchronisation returns under an id already used would overwrite the
+\* first one's row (e.obj numbers the design objects of the writer process)
+SyncRetEv(e) == /\ Clause("an-id-names-one-design", e.k \notin DOMAIN returned \/ returned[e.k][3] = e.obj)
+                /\ returned' = Put(returned, e.k, <<e.v, e.cf, e.obj>>) /\ UNCHANGED <<rows, live, crashed>>
 CrashEv(e) == crashed' = TRUE /\ UNCHANGED <<rows, live, returned>>
 RecoverEv(e) ==
     /\ Clause("crash-before-recover", crashed)
